@@ -156,6 +156,21 @@ impl<'de> serde::Deserialize<'de> for P32 {
     fn deserialize<D: serde::Deserializer<'de>>(d: D) -> Result<Self, D::Error> { Ok(Self::mk(u64::deserialize(d)?)) }
 }
 
+// plain data without an all-zero value (`Copy`, may stay uninitialised, but must never be conjured from zeroed bytes)
+#[derive(Clone, Copy, PartialEq, Debug)]
+#[repr(transparent)]
+pub struct PNZ(pub std::num::NonZeroU32);
+impl V for PNZ {
+    fn mk(id: u64) -> Self { PNZ(std::num::NonZeroU32::new((id as u32) | 0x8000_0000).unwrap()) }
+    fn show(&self) -> String { (self.0.get() & 0x7FFF_FFFF).to_string() }
+}
+impl serde::Serialize for PNZ {
+    fn serialize<S: serde::Serializer>(&self, s: S) -> Result<S::Ok, S::Error> { s.serialize_u64((self.0.get() & 0x7FFF_FFFF) as u64) }
+}
+impl<'de> serde::Deserialize<'de> for PNZ {
+    fn deserialize<D: serde::Deserializer<'de>>(d: D) -> Result<Self, D::Error> { Ok(Self::mk(u64::deserialize(d)?)) }
+}
+
 // an `Option` of plain data (the generator's handling of `Option<_>` fields; `None` never occurs, so the value is always printable)
 impl V for Option<P4> {
     fn mk(id: u64) -> Self { Some(P4::mk(id)) }
